@@ -73,15 +73,47 @@ def write_inputs(ctx, name, items):
     return path
 
 
-def monitor(ctx, target, inputs_path, n_inputs, mem_kb=8000000, timeout=3000):
+def monitor_sharded(ctx, target, items, shards=8, mem_kb=6000000, timeout=3000):
+    """Splits the inputs over several isolated workers running in parallel; returns (trace path, fatal count)."""
+    import threading
+    shards = max(1, min(shards, len(items) // 50 or 1))
+    parts = [items[i::shards] for i in range(shards)]
+    results = [None] * shards
+    errors = []
+
+    def work(k):
+        try:
+            inp = write_inputs(ctx, "%s.shard%d.ndjson" % (target, k), parts[k])
+            results[k] = monitor(ctx, target, inp, len(parts[k]), mem_kb=mem_kb, timeout=timeout, tag="s%d" % k)
+        except Exception as e:      # noqa
+            errors.append(e)
+
+    ths = [threading.Thread(target=work, args=(k,)) for k in range(shards)]
+    for t in ths:
+        t.start()
+    for t in ths:
+        t.join()
+    if errors:
+        raise errors[0]
+    trace_all = os.path.join(ctx.specdir, "trace.ndjson")
+    fat = 0
+    with open(trace_all, "w") as out:
+        for tr, f in results:
+            with open(tr) as g:
+                out.write(g.read())
+            fat += f
+    return trace_all, fat
+
+
+def monitor(ctx, target, inputs_path, n_inputs, mem_kb=8000000, timeout=3000, tag=""):
     """Runs the worker; when it dies (fatal error, watchdog) the input named in the progress file is
     recorded as fatal and the worker restarted after it."""
-    trace_all = os.path.join(ctx.specdir, "trace.ndjson")
+    trace_all = os.path.join(ctx.specdir, "trace%s.ndjson" % tag)
     open(trace_all, "w").close()
     start = 0
     fatals = 0
-    part = os.path.join(ctx.scratch, "part.ndjson")
-    progress = os.path.join(ctx.scratch, "progress.txt")
+    part = os.path.join(ctx.scratch, "part%s.ndjson" % tag)
+    progress = os.path.join(ctx.scratch, "progress%s.txt" % tag)
     summaries = []
     while start < n_inputs:
         cmd = "ulimit -v %d; exec %s robust-run -target %s -in %s -trace %s -progress %s -start %d" % (
